@@ -9,11 +9,12 @@ CLAUSES = {
     "yaml-toml-equal": "the version-2 YAML and TOML spellings give identical configurations",
     "v1-v2-equal": "the legacy version-1 spelling gives the same constructor arguments for all modules (after the constructors' own normalisation of empty/None/Path values)",
     "grid-default": "an omitted grid section uses the forcing module and the first (sorted) forcing file, also for a wildcard name",
+    "runs-equal": "the three spellings of one runnable set-up (YAML with anchors/aliases for repeated encodings, TOML, legacy v1) produce the same output file: dimensions, variables, storage types, attributes and every value",
     "optional-sections": "omitted optional sections (state, ibm, warm_start, grid) behave as empty ones",
 }
-BOUNDS = {"quick": "all 128 combinations of 7 presence flags (grid section, subgrid, reference time, continuous release, ibm section, particle variables, wildcard forcing name); every leaf a unique token",
+BOUNDS = {"quick": "(runs-equal: 3-step runs on a 6x6 ROMS grid, 2 release rows with symbolic depth/weight, discrete or continuous, plain or wildcard forcing name, YAML with aliases) all 128 combinations of 7 presence flags (grid section, subgrid, reference time, continuous release, ibm section, particle variables, wildcard forcing name); every leaf a unique token",
           "thorough": "same plus extra_forcing and diffusion flags (512 combinations)"}
-ASSUMES = ["equality of the three runs follows from equal constructor arguments and determinism (C14) — argued, not re-run",
+ASSUMES = ["equality of the three runs follows from equal constructor arguments and determinism (C14) for the 128 flag combinations — argued; one runnable set-up (scenario runs-equal) is really run in the three spellings and the files compared",
            "the v1 vocabulary the docstring of configure_v1 supports ('ordinary use cases'): warm_start and ladim1-only keys are not exercised"]
 OUTSIDE = "YAML/TOML parser internals"
 
@@ -24,7 +25,119 @@ def scenarios(tier):
     # spelling details: how the version is written, .yml suffix, '?' wildcard, extra_forcing
     for k, (ver, suffix, wild) in enumerate([("2", ".yaml", "*"), ("2.0", ".yml", "?"), ('"2.0"', ".yaml", "*"), (None, ".yml", "?")]):
         out.append(dict(name=f"variant-{k}", fn="run", params=dict(extra=False, version=ver, suffix=suffix, wild=wild, extra_forcing=True), cost=10))
+    out.append(dict(name="runs-equal", fn="runs", params={}, cost=10))
     return out
+
+
+def runs(W, p):
+    """one runnable set-up in three spellings through the real main(): configure -> Model -> run -> files"""
+    from harness import romsfile
+    from harness.common import T0
+
+    mainmod = W.load("ladim.main")
+    tmp = W.scratch()
+    L, M, N, DT = 6, 6, 2, 600
+    ones = [[1] * L for _ in range(M)]
+    gs = romsfile.grid_vars(L, M, N, h=[[100] * L for _ in range(M)], mask=ones, pm=[[W.frac(1, 800)] * L for _ in range(M)], pn=[[W.frac(1, 800)] * L for _ in range(M)])
+    uu = [[[[W.frac(1, 20)] * (L - 1) for _ in range(M)] for _ in range(N)] for _ in range(2)]
+    vv = [[[[0] * L for _ in range(M - 1)] for _ in range(N)] for _ in range(2)]
+    fs = romsfile.forcing_vars([T0 - romsfile.REFSEC, T0 - romsfile.REFSEC + 4 * DT], uu, vv)
+    for nm in ("ocean_0012.nc", "ocean_001.nc"):
+        (tmp / nm).touch()  # the glob of the wildcard name must find the file on disk (the decoy does not match ocean_00?.nc)
+    romsfile.write(W, tmp / "ocean_001.nc", gs, fs)
+    wild = W.truth(W.bool("wildcard"))
+    forcing_name = str(tmp / ("ocean_00?.nc" if wild else "ocean_001.nc"))
+    x0, y0, z0, w0 = W.frac(11, 4), W.frac(5, 2), W.real("z0", 0, 99), W.real("w0")  # horizontal start concrete (cell rounding is C02/C09's subject)
+    cont = W.truth(W.bool("continuous"))
+    cols = ["release_time", "X", "Y", "Z", "w0"]
+    W.table(tmp / "rel.rls", cols, [[W.dt(T0), x0, y0, z0, w0], [W.dt(T0 + DT), x0, y0 + W.frac(1, 4), z0, w0 + 1]], header=False)
+    start, stop = "2000-01-04 00:00:00", "2000-01-04 00:30:00"
+    lname = dict(pid="particle identifier", X="particle X-coordinate", Y="particle Y-coordinate", Z="particle depth", w0="weight")
+    outs = {}
+    for tag in ("y2", "t2", "y1"):
+        (tmp / tag).mkdir()
+        outs[tag] = tmp / tag / "out.nc"
+    y2 = ["version: 2", "time:", f"    start: {start}", f"    stop: {stop}", f"    dt: {DT}",
+          "forcing:", "    module: ladim.ROMS", f"    filename: {forcing_name}",
+          "state:", "    instance_variables: {}", "    particle_variables: {w0: float}", "    default_values: {}",
+          "tracker:", "    advection: EF",
+          "release:", f"    release_file: {tmp / 'rel.rls'}", f"    names: [{', '.join(cols)}]"]
+    if cont:
+        y2 += ["    continuous: true", f"    release_frequency: {2 * DT}"]
+    # repeated encodings written once and referred to by alias (ordinary YAML)
+    y2 += ["output:", f"    filename: {outs['y2']}", f"    output_period: {DT}", "    instance_variables:",
+           f"        pid: {{encoding: {{datatype: i4}}, attributes: {{long_name: {lname['pid']}}}}}",
+           f"        X: {{encoding: &float32 {{datatype: f4}}, attributes: {{long_name: {lname['X']}}}}}",
+           f"        Y: {{encoding: *float32, attributes: {{long_name: {lname['Y']}}}}}",
+           f"        Z: {{encoding: *float32, attributes: {{long_name: {lname['Z']}}}}}",
+           "    particle_variables:",
+           f"        w0: {{encoding: *float32, attributes: {{long_name: {lname['w0']}}}}}"]
+
+    def tq(s_):
+        return '"' + str(s_) + '"'
+
+    t2 = ["version = 2", "[time]", f"start = {start.replace(' ', 'T')}", f"stop = {stop.replace(' ', 'T')}", f"dt = {DT}",
+          "[forcing]", 'module = "ladim.ROMS"', f"filename = {tq(forcing_name)}",
+          "[state]", "instance_variables = {}", 'particle_variables = {w0 = "float"}', "default_values = {}",
+          "[tracker]", 'advection = "EF"',
+          "[release]", f"release_file = {tq(tmp / 'rel.rls')}", "names = [" + ", ".join(tq(c) for c in cols) + "]"]
+    if cont:
+        t2 += ["continuous = true", f"release_frequency = {2 * DT}"]
+    t2 += ["[output]", f"filename = {tq(outs['t2'])}", f"output_period = {DT}", "[output.instance_variables]",
+           f'pid = {{encoding = {{datatype = "i4"}}, attributes = {{long_name = {tq(lname["pid"])}}}}}']
+    t2 += [f'{v} = {{encoding = {{datatype = "f4"}}, attributes = {{long_name = {tq(lname[v])}}}}}' for v in ("X", "Y", "Z")]
+    t2 += ["[output.particle_variables]", f'w0 = {{encoding = {{datatype = "f4"}}, attributes = {{long_name = {tq(lname["w0"])}}}}}']
+    y1 = ["time_control:", f"    start_time: {start}", f"    stop_time: {stop}",
+          "files:", f"    particle_release_file: {tmp / 'rel.rls'}", f"    output_file: {outs['y1']}",
+          "gridforce:", "    module: ladim1.gridforce.ROMS", f"    input_file: {forcing_name}",
+          "particle_release:", f"    variables: [{', '.join(cols)}]", "    particle_variables: [w0]"]
+    if cont:
+        y1 += ["    release_type: continuous", f"    release_frequency: {2 * DT}"]
+    y1 += ["output_variables:", f"    outper: {DT}", "    instance: [pid, X, Y, Z]", "    particle: [w0]",
+           f"    pid: {{ncformat: i4, long_name: {lname['pid']}}}"]
+    y1 += [f"    {v}: {{ncformat: f4, long_name: {lname[v]}}}" for v in ("X", "Y", "Z", "w0")]
+    y1 += ["numerics:", f"    dt: {DT}", "    advection: EF", "    diffusion: 0"]
+    (tmp / "y2" / "conf.yaml").write_text("\n".join(y2) + "\n")
+    (tmp / "t2" / "conf.toml").write_text("\n".join(t2) + "\n")
+    (tmp / "y1" / "conf.yaml").write_text("\n".join(y1) + "\n")
+    res = {}
+    for tag, fn in (("y2", "conf.yaml"), ("t2", "conf.toml"), ("y1", "conf.yaml")):
+        mainmod.main(tmp / tag / fn)
+        res[tag] = W.nc_read(outs[tag])
+    ref = res["t2"]
+    for tag in ("y2", "y1"):
+        d = res[tag]
+        same_shape = d["dims"] == ref["dims"] and sorted(d["vars"]) == sorted(ref["vars"])
+        types = {v: (d["types"].get(v), ref["types"].get(v)) for v in ref["vars"] if d["types"].get(v) != ref["types"].get(v)}
+        atts = {v: (d["atts"].get(v), ref["atts"].get(v)) for v in ref["vars"] if _attn(d["atts"].get(v)) != _attn(ref["atts"].get(v))}
+        W.prove(same_shape and not types and not atts, "runs-equal", dict(spelling=tag, against="t2", dims=(d["dims"], ref["dims"]), type_diff=types, att_diff=str(atts)[:300]))
+        conds = []
+        if same_shape:
+            for v in ref["vars"]:
+                a, b = _flat(d["vars"][v]), _flat(ref["vars"][v])
+                if len(a) != len(b):
+                    conds.append(False)
+                    continue
+                for x, y in zip(a, b):
+                    if W.is_fill(x) or W.is_fill(y):
+                        conds.append(W.is_fill(x) and W.is_fill(y))
+                    else:
+                        conds.append(W.eq(x, y))
+        W.prove(W.all(conds) if all(c is not False for c in conds) else False, "runs-equal", dict(spelling=tag, against="t2", note="values"))
+    return (wild, cont)
+
+
+def _attn(a):
+    return {k: (str(v)) for k, v in (a or {}).items()}
+
+
+def _flat(x):
+    if isinstance(x, (list, tuple)):
+        out = []
+        for y in x:
+            out += _flat(y)
+        return out
+    return [x]
 
 
 def _tok(n):
